@@ -6,7 +6,7 @@ From TLV Require Import Base.Shape Base.PyList Base.Tensor Base.BigSum Base.Ops 
   Proofs.TransformsProofs Proofs.TransformsProofsR Proofs.TransformsProofsTT Proofs.TransformsProofsTucker
   Proofs.TransformsProofsPf2 Proofs.TransformsProofsR2 Proofs.TransformsProofsFlip Proofs.TransformsProofsApi Proofs.TransformsProofsPermList
   Proofs.TransformsProofsTTM Proofs.TransformsProofsOrtho Proofs.TransformsProofsNegMode Proofs.TransformsProofsNegMode2 Proofs.TransformsProofsAlign Proofs.TransformsProofsLink
-  Model.TransformsApi Model.TransformsHeap Proofs.TransformsProofsValid Proofs.TransformsProofsHeap.
+  Model.TransformsApi Model.TransformsHeap Proofs.TransformsProofsValid Proofs.TransformsProofsHeap Proofs.TransformsProofsHeapTk.
 From TLV Require Model.Factorized Proofs.FactorizedProofs Proofs.FactorizedProofs3 Proofs.FactorizedProofs5 Proofs.FactorizedProofs9.
 Import ListNotations.
 
@@ -731,6 +731,22 @@ Theorem C04_cp_mode_dot_copy_fresh : forall (F : Type) (Op : fops F) (h : heap) 
 Proof. exact @cp_mode_dot_h_copy_fresh. Qed.
 Print Assumptions C04_cp_mode_dot_copy_fresh.
 
+(* end to end on the heap: copy=True, a vector contracted -- whatever the aliasing among the caller's arrays the result's entries are the
+   mode product of what the operand denoted (exactly the statement that C04_cp_mode_dot_inplace_alias_refuted refutes for copy=False) *)
+Theorem C04_cp_mode_dot_copy_contract_entry : forall (F : Type) (Op : fops F),
+  ring_theory (f0 Op) (f1 Op) (fadd Op) (fmul Op) (fsub Op) (fopp Op) (@eq F) ->
+  forall (h : heap) r v k h' o idx' l,
+  wf_ref h r -> ref_w h r = Some l ->
+  cp_mode_dot_h Op h r true (OpVec v) k false = Ok (h', o) ->
+  S (length idx') = length (operand_fs (deref h r)) ->
+  length (operand_w Op (deref h r)) <= ncols (nth k (operand_fs (deref h r)) []) ->
+  cpo_shape (read_obj h' o) = remove_nth k (cp_shape (operand_fs (deref h r))) /\
+  cp_entry Op (cpo_w (read_obj h' o)) (cpo_fs (read_obj h' o)) idx' =
+  sumn Op (length (nth k (operand_fs (deref h r)) []))
+       (fun i => fmul Op (vget Op v i) (cp_entry Op (operand_w Op (deref h r)) (operand_fs (deref h r)) (insert_at k i idx'))).
+Proof. exact @cp_mode_dot_h_copy_contract_entry. Qed.
+Print Assumptions C04_cp_mode_dot_copy_contract_entry.
+
 (* HISTORIES (induction over the list of calls): any finite sequence of cp_mode_dot(copy=True) calls, each applied to ANY tensor seen so
    far (one of the caller's operands or an earlier result), leaves the initial heap a prefix of the final one, keeps every reference
    well-formed, and every tensor ever seen still denotes what it denoted before the sequence *)
@@ -786,6 +802,19 @@ Theorem C04_cp_mode_dot_repaired_value : forall (F : Type) (Op : fops F) (h : he
 Proof. exact @cp_mode_dot_h_fresh_value. Qed.
 Print Assumptions C04_cp_mode_dot_repaired_value.
 
+(* tucker_mode_dot's copy flag on the heap: whatever the copy flag and the aliasing in the caller's factor list, no array and no core is
+   ever overwritten and the returned references read as the pure model's answer; copy=True leaves the caller's lists alone and returns
+   fresh locations only; copy=False returns the caller's own (popped / updated) list cell *)
+Theorem C04_tucker_mode_dot_heap : forall (F : Type) (Op : fops F) (th : theap) cl fl copy x mode kd th' cl' fl',
+  twf th cl fl -> tucker_mode_dot_h Op th cl fl copy x mode kd = Ok (th', (cl', fl')) ->
+  (exists a, t_arr th' = t_arr th ++ a) /\ (exists c, t_core th' = t_core th ++ c) /\
+  tucker_mode_dot Op (tcore th cl) (map (tarr th) (tlst th fl)) x mode kd = Ok (tread th' cl' fl') /\
+  (copy = true -> (exists l, t_lst th' = t_lst th ++ l) /\ length (t_lst th) <= fl' /\ length (t_core th) <= cl' /\
+                  forall l, In l (tlst th' fl') -> length (t_arr th) <= l) /\
+  (copy = false -> fl' = fl /\ length (t_lst th') = length (t_lst th) /\ forall k, k <> fl -> tlst th' k = tlst th k).
+Proof. exact @tucker_mode_dot_h_spec. Qed.
+Print Assumptions C04_tucker_mode_dot_heap.
+
 (* an in-place update of one location reads back as an update of one slot when no other slot names that location *)
 Theorem C04_inplace_update_unique_slot : forall (B : Type) (d : B) (tbl : list B) v (ls : list nat) m,
   m < length ls -> nth m ls 0 < length tbl ->
@@ -809,6 +838,9 @@ Example C04_round5_nonvacuous :
   tucker_new (mk [2] [1; 2]%Z) [[[1; 0]; [1; 1]]%Z] = Err /\
   (exists h' o, cp_mode_dot_h Zops alias_heap (RTuple (Some 0) 0) true (OpVec [1; 2]%Z) 2 false = Ok (h', o) /\
                 cp_entry Zops (cpo_w (read_obj h' o)) (cpo_fs (read_obj h' o)) [0; 0] = 49%Z /\ o = 0 /\ owned h' o = [6; 3; 4]) /\
+  (let th := mk_theap [mk [2; 1] [1; 2]%Z] [[[1; 0]; [1; 1]]; [[2]; [3]]]%Z [[0; 1]] in
+   twf th 0 0 /\ tucker_mode_dot_h Zops th 0 0 false (OpVec [1; 1]%Z) 0 true
+     = Ok (mk_theap [mk [2; 1] [1; 2]%Z] [[[1; 0]; [1; 1]]; [[2]; [3]]; [[2; 1]]]%Z [[2; 1]], (0, 0))) /\
   (exists h' refs', run_ops Zops alias_heap [RTuple (Some 0) 0] [(0, OpVec [1; 2]%Z, 2, false); (1, OpMat [[1; 1]]%Z, 0, false); (0, OpVec [1; 1]%Z, 0, true)]
                       = Ok (h', refs') /\ refs' = [RTuple (Some 0) 0; RObject 0; RObject 1; RObject 2] /\
                     cpo_shape (read_obj h' 1) = [1; 2] /\ cpo_shape (read_obj h' 2) = [1; 2; 2]) /\
@@ -819,8 +851,9 @@ Example C04_round5_nonvacuous :
                 cp_entry Zops (cpo_w (read_obj h' o)) (cpo_fs (read_obj h' o)) [0; 0] = 49%Z /\
                 arr h' 2 = [[5; 22]; [15; 44]]%Z /\ owned h' o = [0; 1; 2]).
 Proof.
-  cbv zeta. repeat (split; [vm_compute; reflexivity|]). split; [|split; [|split]].
+  cbv zeta. repeat (split; [vm_compute; reflexivity|]). split; [|split; [|split; [|split]]].
   - do 2 eexists. split; [vm_compute; reflexivity|]. repeat split; vm_compute; reflexivity.
+  - split; [|vm_compute; reflexivity]. unfold twf, tlst. simpl. repeat split; try lia.
   - do 2 eexists. split; [vm_compute; reflexivity|]. repeat split; vm_compute; reflexivity.
   - do 2 eexists. split; [vm_compute; reflexivity|]. repeat split; vm_compute; reflexivity.
   - do 2 eexists. split; [vm_compute; reflexivity|]. repeat split; vm_compute; reflexivity.
